@@ -157,7 +157,7 @@ func propC08(c *Check) {
 	pp := p.MustFn("x/goat/keeper.Keeper.ProcessProposalHandler$1")
 	c.RequireFact(pp, "R1", "non-empty", lit(NE("0", "len($1.Txs)")), nil, "")
 	c.RequireFact(pp, "R1", "at-most-maxTxLen", fmt.Sprintf(`^\(len\(\$1\.Txs\) <= %d\)$|^\(len\(\$1\.Txs\) < %d\)$`, maxTx, maxTx+1), nil, "")
-	c.RequireFact(pp, "R1", "accept-after-all-txs", lit("(len($1.Txs) <= (1 + φ{-1|@}))"), nil, "")
+	c.RequireFact(pp, "R1", "accept-after-all-txs", lit("(len($1.Txs) <= φ{(1 + @)|0})"), nil, "")
 	vcalls := p.FindCalls(pp, `^ProposalTxVerifier\.ProcessProposalVerifyTx\(`)
 	if len(vcalls) != 1 {
 		c.Violated("R1", "per-tx-verification @ "+FuncKey(pp), p.Pos(pp.Pos()), fmt.Sprintf("%d ProcessProposalVerifyTx call sites reason=not-established", len(vcalls)))
@@ -168,15 +168,15 @@ func propC08(c *Check) {
 		next := func(in ssa.Instruction) bool { return in == ssa.Instruction(vc) || succ(in) }
 		q := regexp.QuoteMeta
 		msgs := "Tx.GetMsgs(" + vs + "#0)"
-		notFirst := lit(NE("(1 + φ{-1|@})", "0"))
-		first := lit(EQ("(1 + φ{-1|@})", "0"))
+		notFirst := lit(NE("φ{(1 + @)|0}", "0"))
+		first := lit(EQ("φ{(1 + @)|0}", "0"))
 		c.requireFactFrom(pp, "R1", "tx-verified", `^\(`+q(vs)+`#1 == nil\)$`, vc, next, "next tx / ACCEPT")
 		c.requireFactFrom(pp, "R1", "first-tx-one-message", notFirst+"|"+lit(EQ("1", "len("+msgs+")")), vc, next, "next tx / ACCEPT")
 		c.requireFactFrom(pp, "R1", "first-tx-is-MsgNewEthBlock", notFirst+"|"+lit(msgs+"[0].(*goat/types.MsgNewEthBlock)#1"), vc, next, "next tx / ACCEPT")
 		c.requireFactFrom(pp, "R1", "first-tx-block-verified", notFirst+"|"+lit("(Keeper.verifyEthBlockProposal("+msgs+"[0].(*goat/types.MsgNewEthBlock)#0) == nil)"), vc, next, "next tx / ACCEPT")
-		c.requireFactFrom(pp, "R1", "later-tx-all-messages-inspected", first+"|"+lit("(len("+msgs+") <= (1 + φ{-1|@}))"), vc, next, "next tx / ACCEPT")
+		c.requireFactFrom(pp, "R1", "later-tx-all-messages-inspected", first+"|"+lit("(len("+msgs+") <= φ{(1 + @)|0})"), vc, next, "next tx / ACCEPT")
 		// a MsgNewEthBlock in a later tx can only fail
-		bad := p.MatchEdges(pp, regexp.MustCompile(lit(msgs+"[(1 + φ{-1|@})].(*goat/types.MsgNewEthBlock)#1")))
+		bad := p.MatchEdges(pp, regexp.MustCompile(lit(msgs+"[φ{(1 + @)|0}].(*goat/types.MsgNewEthBlock)#1")))
 		if len(bad) == 0 {
 			c.Violated("R1", "later-tx-no-MsgNewEthBlock @ "+FuncKey(pp), p.Pos(pp.Pos()), "no type test of later messages against *MsgNewEthBlock reason=not-established")
 		} else {
